@@ -622,3 +622,10 @@ Definition void_ret_m (x : Z) : Z := x + (x + 1) + (x + 2).
    other argument (None) *)
 Definition make_pair_member_m (wrapped : option bool) : ty :=
   match wrapped with Some k => mkty k RL | None => mkty false RNone end.
+
+(* known findings (missing pieces of the tuple protocol, visible only at compile time):
+   tuple.hpp keeps its storage private and does not specialise std::tuple_size / std::tuple_element, so a
+   structured binding of an etl::tuple is ill-formed (pair decomposes through its public members);
+   get<T>(pair) / get<T>(tuple) are declared as friends of tuple but never defined *)
+Definition tuple_structured_binding_m : bool := false.
+Definition get_by_type_m (is_pair : bool) : bool := false.
